@@ -704,12 +704,22 @@ impl Resolution<'_> {
                 first,
                 second,
                 source,
-            } => Error::InstantiationArgMergeFailure {
-                name: import,
-                span: self.instantiation_spans[&second],
-                instantiation: self.instantiation_spans[&first],
-                source,
-            },
+            } => {
+                // either node may be an explicit import rather than an instantiation
+                let span_of = |node: &NodeId| {
+                    self.instantiation_spans
+                        .get(node)
+                        .or_else(|| self.import_spans.get(node))
+                        .copied()
+                        .expect("node should have a span")
+                };
+                Error::InstantiationArgMergeFailure {
+                    name: import,
+                    span: span_of(&second),
+                    instantiation: span_of(&first),
+                    source,
+                }
+            }
         })
     }
 
